@@ -177,6 +177,13 @@ func c17Closed(t *T) {
 	n := 1 + c.Draw(8)
 	for i := 0; i < n; i++ {
 		o := hOp{Kind: closedOps[c.Draw(len(closedOps))], N: 3, Data: []byte("zz"), Off: int64(c.Draw(3)), Perm: 0600}
+		// unusual but legal arguments: empty and nil buffers, a zero count
+		switch c.Weighted(6, 1, 1) {
+		case 1:
+			o.N, o.Data = 0, []byte{}
+		case 2:
+			o.N, o.Data = 0, nil
+		}
 		want := callHandle(rf, o)
 		var got hResult
 		panicked := ""
@@ -188,8 +195,11 @@ func c17Closed(t *T) {
 			}()
 			got = callHandle(sf, o)
 		}()
-		t.Logf("%d closed.%s -> sut=%s os=%s", i, o.Kind, errClass(got.err), errClass(want.err))
+		t.Logf("%d closed.%s(n=%d) -> sut=%s os=%s", i, o.Kind, len(o.Data), errClass(got.err), errClass(want.err))
 		sig := "C17:closed:" + c17Kind(k, isDir, flag) + ":" + o.Kind
+		if len(o.Data) == 0 {
+			sig += "(empty)"
+		}
 		if panicked != "" {
 			t.Fail("panic", sig+":panic", fmt.Sprintf("%s on a closed %s handle of %q panicked: %s", o.Kind, stackName(k), path, panicked))
 		}
@@ -259,7 +269,13 @@ func nameSet(fs hackpadfs.FS) string {
 func c17Unlink(t *T) {
 	c := t.C
 	kind := c.Draw(3)
-	sut, _ := newSUT(t, kind)
+	sut, store := newSUT(t, kind)
+	// fault mode (simulated stores): once the name is gone, a store call made by a handle operation may fail
+	// once. The operation may then fail; the name must stay gone.
+	faultsLeft := 0
+	if store != nil && c.Chance(1, 3) {
+		faultsLeft = 1 + c.Draw(2)
+	}
 	ref, _, cleanup := osTwin(t)
 	defer cleanup()
 	for _, fs := range []hackpadfs.FS{sut, ref} {
@@ -284,7 +300,7 @@ func c17Unlink(t *T) {
 		{Kind: "Rename", P: "d/f", Q: "g"},
 	}
 	n := 2 + c.Draw(8)
-	unlinked := false
+	unlinked, faulted := false, false
 	for i := 0; i < n; i++ {
 		if c.Chance(1, 3) || (!unlinked && i == n-2) {
 			o := nsOps[c.Draw(len(nsOps))]
@@ -302,6 +318,12 @@ func c17Unlink(t *T) {
 			h := w.hs[o.H]
 			callHandle(h.ref, o)
 			var got hResult
+			var plan *faultPlan
+			if unlinked && faultsLeft > 0 && c.Chance(1, 2) {
+				faultsLeft--
+				plan = &faultPlan{t: t, at: c.Draw(2), kind: []string{"Get", "", "Set"}[c.Weighted(3, 1, 1)], armed: true}
+				store.plan = plan
+			}
 			func() {
 				defer func() {
 					if r := recover(); r != nil {
@@ -310,12 +332,21 @@ func c17Unlink(t *T) {
 				}()
 				got = callHandle(h.sut, o)
 			}()
+			if store != nil {
+				store.plan = nil
+			}
+			if plan != nil && plan.fired > 0 {
+				faulted = true
+			}
 			t.Logf("%d %s [%s] -> sut=%s", i, o, flagString(h.flag), errClass(got.err))
 		}
 		if !unlinked {
 			continue
 		}
 		sn, rn := nameSet(sut), nameSet(ref)
+		if sn != rn && faulted {
+			t.Fail("resurrection", "C17:unlink:names-differ-after-store-fault", fmt.Sprintf("after step %d on %s (a store call of a handle operation failed once: %s) the set of names differs from os:\nsut:\n%s\nos:\n%s", i, sutName(kind), faultedAt(store), sn, rn))
+		}
 		if sn != rn {
 			t.Fail("resurrection", "C17:unlink:names-differ", fmt.Sprintf("after step %d on %s the set of names differs from os:\nsut:\n%s\nos:\n%s", i, sutName(kind), sn, rn))
 		}
@@ -326,6 +357,13 @@ func c17Unlink(t *T) {
 }
 
 var _ = io.EOF
+
+func faultedAt(s *SimStore) string {
+	if s == nil {
+		return ""
+	}
+	return fmt.Sprintf("%d gets, %d sets so far", s.gets, s.sets)
+}
 
 // c17ClosedProbe: open path on stack k, close, call op.
 func c17ClosedProbe(k int, path string, flag int, op string) func(t *T) {
